@@ -120,6 +120,9 @@ def run_cases(P, exes, drv, cases, model_ok=True, profs=("debug", "release")):
     return {prof: run.run_impl(exes[prof], lines, env) for prof in profs}
 
 
+MODEL_FAILURES = []
+
+
 def evaluate(P, cases, res, drv, model_ok=True):
     """check + correspond; returns (mismatches, failures) as lists of (case_index, prof, detail)"""
     mism, fails = [], []
@@ -132,8 +135,12 @@ def evaluate(P, cases, res, drv, model_ok=True):
                 fails.append((i, prof, msg))
         if model_ok:
             chk = prof == "debug"
-            for i, detail in P.correspond(cases, traces, prof, lambda lines: run.run_model(drv, chk, lines)):
-                mism.append((i, prof, detail))
+            try:
+                for i, detail in P.correspond(cases, traces, prof, lambda lines: run.run_model(drv, chk, lines)):
+                    mism.append((i, prof, detail))
+            except build.BuildError as ex:
+                # the extracted model itself failed (resource exhaustion on a huge case): the checkers still judge the implementation
+                MODEL_FAILURES.append({"kind": "model-run", "what": ex.what, "log": ex.log[-500:]})
     return mism, fails
 
 
@@ -235,6 +242,8 @@ def main(P, tier, replay=None):
     else:
         cases, res, mism, fails = [], {"debug": [], "release": []}, [], []
     P.extra(ctx)
+    if MODEL_FAILURES and not fails:
+        ctx["open_obligations"] += MODEL_FAILURES[:2]
 
     if replay:
         for prof in ("debug", "release"):
@@ -270,7 +279,7 @@ def main(P, tier, replay=None):
                 continue
             r1 = run_cases(P, exes, drv, [c], model_ok)
             _, f1 = evaluate(P, [c], r1, drv, model_ok)
-            m1 = {p_: (run.run_model(drv, p_ == "debug", [c.line])[0] if model_ok else None) for p_ in r1}
+            m1 = {p_: (run.run_model_1(drv, p_ == "debug", c.line) if model_ok else None) for p_ in r1}
             path = write_replay(pid, k, {
                 "property": pid, "tier": tier, "seed": seed, "kind": "failing-input",
                 "case": {"line": c.line, "meta": c.meta},
@@ -290,7 +299,7 @@ def main(P, tier, replay=None):
             what["correspondence"] = {"stream": P.family_doc, "profile": prof, "n_mismatching_cases": len(mism),
                                       "case": {"line": c.line, "meta": c.meta}, "detail": [d for _, _, d in mm] or [msg],
                                       "impl_trace": {p: r1[p][0] for p in r1},
-                                      "model_trace": {p_: run.run_model(drv, p_ == "debug", [c.line])[0] for p_ in r1}}
+                                      "model_trace": {p_: run.run_model_1(drv, p_ == "debug", c.line) for p_ in r1}}
             what["case"] = {"line": c.line, "meta": c.meta}
         path = write_replay(pid, "open-" + hashlib.sha1(json.dumps(what, sort_keys=True).encode()).hexdigest()[:10], what)
         violations.append((path, True))
